@@ -232,6 +232,16 @@ void misc_string_ops(Enumerator &E) {
                 E.cell(nm("format", "bad" + std::to_string(bad), std::string("a1=") + L(LC16[ti], 16) + ",a2=" + L(LC16[ai], 16)), b, ts);
             }
         }
+    // replace / split with many matches (scratch structures that only go to the heap beyond some number of matches)
+    for (uint32_t reps : {20u, 40u, 70u, 140u})
+        for (unsigned ov = 0; ov < 4; ov++) {
+            { Builder b; Op f; f.kind = S_FILL; f.a = reps; f.b = 'a' - 0x20; b.p.ops.push_back(f); uint32_t s = b.nstr++; uint32_t t2 = b.str(5);
+              Op o; o.kind = S_REPLACE; o.a = s; o.b = 2; o.c = t2; o.d = ov | (1u << 3); size_t ts = b.target(o);
+              E.cell(nm("replace", "ov" + std::to_string(ov) + ",many_matches", "matches=" + std::to_string(reps)), b, ts); }
+            if (ov < 3) { Builder b; Op f; f.kind = S_FILL; f.a = reps; f.b = 'a' - 0x20; b.p.ops.push_back(f); uint32_t s = b.nstr++; uint32_t t2 = b.str(1);
+              Op o; o.kind = S_SPLIT; o.a = s; o.b = ov == 2 ? t2 : 2; o.c = 1004; o.d = ov | ((ov == 2 ? 0u : 1u) << 3); size_t ts = b.target(o);
+              E.cell(nm("split", "ov" + std::to_string(ov) + ",many_pieces", "pieces=" + std::to_string(reps)), b, ts); }
+        }
     // to_buffer into an existing buffer, decode into an existing buffer, vector elements
     for (int ti = 0; ti < 5; ti++)
         for (int di = 0; di < 5; di++) {
@@ -262,6 +272,12 @@ void misc_string_ops(Enumerator &E) {
                     size_t ts = b.target(o);
                     E.cell(nm("istream", std::string(wide ? "wide" : "narrow") + (corrupt ? ",corrupted" : ""), std::string("token=") + L(LC16[ti], 16) + ",dst=" + L(LC16[di], 16)), b, ts);
                 }
+        for (unsigned var = 0; var < 16; var++) {
+            Builder b; uint32_t x = b.str(LC16[ti]);
+            Op o; o.kind = S_SINKS; o.a = x; o.b = var; o.c = 77;
+            size_t ts = b.target(o);
+            E.cell(nm("sinks", "var" + std::to_string(var), std::string("obj=") + L(LC16[ti], 16)), b, ts);
+        }
         for (unsigned wide = 0; wide < 2; wide++) {
             Builder b; uint32_t x = b.str(LC16[ti]);
             Op o; o.kind = S_OSTREAM; o.a = x; o.b = wide;
